@@ -500,6 +500,69 @@ def run_invalid(rep, exe, r, n):
             rep.violation(hit[0], hit[1], dict(correspondence="entry", case=c, impl=l, oracle_only=True), found_input=True)
     return len(cases), hits
 
+def lossy_ok(v, s):
+    """is the view [v] an acceptable rendering of the last value [s] in a locale that cannot represent it?  The value
+    itself, or the value with every non-ASCII character replaced by question marks (one per character or per byte)"""
+    if v == s:
+        return True
+    try:
+        chars = s.decode("utf-8")
+    except UnicodeDecodeError:
+        return True
+    import re
+    pat = b"".join(re.escape(ch.encode()) if ord(ch) < 0x80 else b"\\?{1,4}" for ch in chars)
+    return re.fullmatch(pat, v, flags=re.S) is not None
+
+def run_clocale(rep, exe, r, n):
+    """C locale: non-ASCII strings cannot be converted, the utf8 update setters fail half-way.  Oracle only: after every
+    step each view of each string field is NULL/empty, the last value written, or a lossy rendering of it - never an
+    OLDER value - and a clone shows exactly the views of its original."""
+    fixed = [vfmt([[15, 0, 0, [b"old-name.txt"]], [15, 0, 3, [b"old-name.txt"]], [15, 0, 4, ["caf\u00e9.txt".encode()]], [30], [15, 0, 4, [b"plain.txt"]]]),
+             vfmt([[15, 2, 3, [b"staff"]], [15, 2, 4, ["gr\u00fcppe".encode()]], [30]]),
+             vfmt([[13, 1, 0, [b"target"]], [13, 1, 4, ["\u65e5\u672c/target".encode()]], [30]])]
+    cases = fixed + [gen_case(r) for _ in range(n)]
+    path = vlib.write_cases(cases, "entry-clocale.cases")
+    rc, lines, err = vlib.run_exe(exe, path, env={"VERIF_LOCALE": "C"})
+    if rc != 0 or len(lines) != len(cases):
+        k = min(len(lines), len(cases) - 1)
+        rep.violation("crash:entry:clocale:" + vlib.crash_key(err), "harness entry stopped (rc=%s) in the C locale on case #%d" % (rc, k),
+                      dict(correspondence="entry", case=cases[k], stderr=err[-3000:], oracle_only=True, locale="C"), found_input=True)
+    hits = 0
+    for c, l in zip(cases, lines):
+        hit = None
+        ops, outs = vparse(c), vparse(l)
+        spec, cspec = Spec(), None
+        for k, (op, out) in enumerate(zip(ops, outs)):
+            oe, oc = out[1], (out[2][0] if out[2] else None)
+            if op[0] == 30: cspec = copy.deepcopy(spec)
+            elif op[0] == 31:
+                if cspec is not None: spec, cspec = cspec, spec
+            else: spec.step(op)
+            if op[0] == 30 and oc is not None:
+                for i in (5, 7, 8):
+                    if oe[i] != oc[i]:
+                        hit = ("C14:clocale:clone-views", "step %d (clone) in the C locale: string views of the clone %r differ from the original's %r" % (k, oc[i], oe[i]))
+            for obj, o, sp in (("object", oe, spec), ("clone", oc, cspec)):
+                if o is None or sp is None or hit:
+                    continue
+                want = sp.observe()
+                fields = [("hardlink", o[5], want[5]), ("symlink", o[7], want[7])] + [(nm, a, b) for nm, a, b in zip(FIELD_NAME, o[8], want[8])]
+                for nm, got, exp in fields:
+                    last = exp[0][0] if exp[0] else None
+                    views = ([got[0][0]] if got[0] else []) + [d[1][0] for d in got[1] if d[1]]
+                    for v in views:
+                        if last is None:
+                            if v != b"":
+                                hit = ("C14:clocale:stale-view:" + nm, "step %d (%s) %s, C locale: a view of %s returns %r although the field is unset" % (k, op_name(op), obj, nm, v))
+                        elif not lossy_ok(v, last):
+                            hit = ("C14:clocale:stale-view:" + nm, "step %d (%s) %s, C locale: a view of %s returns %r; the last value written is %r" % (k, op_name(op), obj, nm, v, last))
+            if hit:
+                break
+        if hit:
+            hits += 1
+            rep.violation(hit[0], hit[1], dict(correspondence="entry", case=c, impl=l[:4000], oracle_only=True, locale="C"), found_input=True)
+    return len(cases), hits
+
 def run(rep):
     pr = vlib.proof_part(rep, "C14", translators=["gen_entry"])
     runner = vlib.build_runner("entry")
@@ -510,6 +573,8 @@ def run(rep):
     corpus = vlib.load_corpus("C14")
     st = vlib.correspond(rep, "entry", runner, exe, corpus + cases, oracle=oracle)
     ninv, _ = run_invalid(rep, exe, vlib.rng(rep.seed, "C14-invalid"), 100 if rep.tier == "quick" else 6000)
+    nloc, _ = run_clocale(rep, exe, vlib.rng(rep.seed, "C14-clocale"), 400 if rep.tier == "quick" else 20000)
+    ninv += nloc
     nsteps = sum(len(vparse(c)) for c in cases)
     rep.coverage.update(
         evaluations=len(cases) + len(corpus) + ninv,
